@@ -27,7 +27,7 @@ ASSUMPTIONS = [
 ]
 REQUIRED_CLASSES = ["seq-len-79-81", "seq-len-159-161", "negative-int", "one-char-field", "append", "gzip", "stream", "empty-piece-between",
                     "empty-piece-first", "int-near-power-of-ten", "empty-table", "pieces-from-reread", "pieces-from-reread-thinned", "concat-of-reread-pieces",
-                    "pieces-sliced-from-the-table-already-written"]
+                    "pieces-sliced-from-the-table-already-written", "sequence-column-in-dna-encoding", "table-written-is-a-row-selection"]
 BOUNDS = {"quick": "150 (table, plan) pairs for each of 13 table types, up to 8 rows", "thorough": "3000 per type, up to 40 rows"}
 BUDGET_S = {"quick": 200, "thorough": 1500}
 
@@ -81,7 +81,7 @@ def _load(path):
     return getattr(importlib.import_module(mod), name)
 
 
-def build_table(tname, rows):
+def build_table(tname, rows, dna=False):
     import numpy as np
     import bionumpy as bnp
     from npstructures import RaggedArray
@@ -101,6 +101,8 @@ def build_table(tname, rows):
             cols.append(bnp.as_encoded_array(vals, QualityEncoding) if vals else bnp.as_encoded_array([], QualityEncoding))
         elif kind == "strand":
             cols.append(bnp.as_encoded_array("".join(vals), StrandEncoding))
+        elif kind in ("seq", "seq1") and dna and vals:
+            cols.append(bnp.as_encoded_array(list(vals), bnp.DNAEncoding))      # the sequences held in the two-bit alphabet instead of as text
         else:
             cols.append(list(vals))
     return dc(*cols)
@@ -181,7 +183,7 @@ def plan_rows(rows, plan):
     return list(rows)
 
 
-def run_plan(tname, rows, plan, path, single=None, table=None):
+def run_plan(tname, rows, plan, path, single=None, table=None, dna=False):
     """Write `rows` according to the plan; returns the decompressed file content.
     source 'constructed': every piece is a table built from values. source 'reread': the pieces are slices (optionally thinned by a
     boolean mask, i.e. non-contiguous selections) of the table obtained by reading the single-write file back lazily."""
@@ -209,7 +211,7 @@ def run_plan(tname, rows, plan, path, single=None, table=None):
             return table[a:b]
     else:
         def piece(a, b):
-            return build_table(tname, rows[a:b])
+            return build_table(tname, rows[a:b], dna)
     mode = plan["mode"]
     if mode == "writes":
         with bnp.open(path, "w", buffer_type=bt) as f:
@@ -252,6 +254,10 @@ def classify(case):
                 cl.append("one-char-field")
     if plan.get("gzip"):
         cl.append("gzip")
+    if case.get("dna_encoded") and rows:
+        cl.append("sequence-column-in-dna-encoding")
+    if case.get("view_perm"):
+        cl.append("table-written-is-a-row-selection")
     if plan.get("source") == "same-table":
         cl.append("pieces-sliced-from-the-table-already-written")
     if plan.get("source") == "reread":
@@ -275,13 +281,24 @@ def check(case, stats=None):
     from pbt.props.c02 import reset_state
     reset_state()
     tname, rows, plan = case["type"], [tuple(r) for r in case["rows"]], case["plan"]
+    dna = bool(case.get("dna_encoded"))
+    perm = case.get("view_perm")
+    if perm:
+        # the table that is written is a row selection (a view nothing has read yet) of a table built in another order
+        built_rows = [None] * len(rows)
+        for pos, src_i in enumerate(perm):
+            built_rows[src_i] = rows[pos]
     bt = _load(TYPES[tname][1])
     suffix = TYPES[tname][2]
     out = []
     with tempfile.TemporaryDirectory(prefix="pbtc03") as d:
         single = os.path.join(d, "single" + suffix)
         try:
-            table = build_table(tname, rows)
+            if perm:
+                import numpy as np
+                table = build_table(tname, built_rows, dna)[np.array(perm, dtype=int)]
+            else:
+                table = build_table(tname, rows, dna)
             with bnp.open(single, "w", buffer_type=bt) as f:
                 f.write(table)
             with open(single, "rb") as f:
@@ -294,7 +311,7 @@ def check(case, stats=None):
             return [Failure(f"C03:not-canonical:{tname}", {"expected": exp[:400], "actual": body[:400]})]
         # the table handed to the writer still holds the values it was built from
         try:
-            diff = formats.first_row_diff(formats.table_rows(build_table(tname, rows)), formats.table_rows(table), 0)
+            diff = formats.first_row_diff(formats.table_rows(build_table(tname, rows, dna)), formats.table_rows(table), 0)
         except Exception as e:
             return [Failure(f"C03:table-unreadable-after-writing:{tname}:{type(e).__name__}:{_where(e)}", {"error": repr(e)[:300]})]
         if diff is not None:
@@ -315,7 +332,7 @@ def check(case, stats=None):
         # (c) composition
         target = os.path.join(d, "plan" + suffix + (".gz" if plan.get("gzip") else ""))
         try:
-            got = run_plan(tname, rows, plan, target, single, table)
+            got = run_plan(tname, rows, plan, target, single, table, dna)
         except Exception as e:
             return [Failure(f"C03:plan-raised:{plan['mode']}:{tname}:{type(e).__name__}:{_where(e)}", {"error": repr(e)[:300], "source": plan.get("source")})]
         if plan.get("source") == "reread":
@@ -396,9 +413,16 @@ def c03_case(draw, tname, max_rows):
     plan = {"pieces": pieces, "mode": draw(st.sampled_from(["writes", "writes", "stream", "append"])), "gzip": draw(st.booleans())}
     if n >= 1 and draw(st.integers(0, 3)) == 0:
         plan["source"] = "same-table"
+    extra = {}
+    if any(k in ("seq", "seq1") for _, k in kinds) and draw(st.booleans()):
+        extra["dna_encoded"] = True
+    if n >= 2 and draw(st.integers(0, 3)) == 0:
+        p_ = list(draw(st.permutations(range(n))))
+        if p_ != list(range(n)):
+            extra["view_perm"] = p_
     if n >= 2 and tname not in NO_REREAD and draw(st.integers(0, 2)) == 0:
         plan.update(source="reread", thin=draw(st.booleans()), mode=draw(st.sampled_from(["writes", "stream", "append", "concat", "concat"])))
-    return {"type": tname, "rows": rows, "plan": plan}
+    return dict({"type": tname, "rows": rows, "plan": plan}, **extra)
 
 
 def task_type(stats, known_open, tname, n, seed, max_rows):
